@@ -233,4 +233,33 @@ class C15(Prop):
             acc.count("swing_commands")
 
 
+    def thread_pairs(self, ctx):
+        r = env.rng("C15", "threads")
+        irs = gen.irset(r, toggle=False, special=False, density=1.0, long_codes=False)
+        remote = self.remotes.SwitcherBreezeRemote(irs)
+        caps = irsel.capabilities(irs)
+        E = self.E
+
+        def req(mode, target, fan, swing):
+            sel = irsel.select(irs, "ON", mode, target, fan, swing, None)
+            want = irsel.payload_of(irs, sel[1]) if sel[0] == "key" else None
+
+            def call():
+                return unhexlify(remote.build_command(E["state"]["ON"], E["mode"][mode], target, E["fan"][fan], E["swing"][swing]).command)
+
+            def j(res):
+                if want is None:
+                    return None
+                return None if res == want else f"built {str(res)[:60]!r}, the request selects key {sel[1]!r} = {want[:40]!r}"
+            return call, j
+
+        modes = [m for m in caps["modes"] if m in ("COOL", "HEAT")] or caps["modes"]
+        t_lo, t_hi = (caps["min"] or 20), (caps["max"] or 20)
+        a_call, a_j = req(modes[0], t_lo, "LOW", "ON")
+        b_call, b_j = req(modes[-1], t_hi, "HIGH", "OFF")
+        c_call, c_j = req(caps["modes"][0], (t_lo + t_hi) // 2, "AUTO", "OFF")
+        return [("build_command(A) || build_command(B) on one remote", a_call, b_call, a_j, b_j),
+                ("build_command(B) || build_command(C) on one remote", b_call, c_call, b_j, c_j)]
+
+
 PROP = C15()
